@@ -36,6 +36,26 @@ def _noblank(s: str) -> list[str]:
     return [ln for ln in s.split("\n") if ln.strip(" >")]
 
 
+_ITEM = __import__("re").compile(r"^(?:> ?|    (?=.*\S))*\s*(?:[-*+]|\d{1,9}[.)])(?: |$)")
+
+
+def item_separation(text: str) -> list[bool]:
+    """for every line that starts a list item (skeleton documents hold markers only in real items): is it
+    preceded by a blank line (container prefixes ignored)?  The first line of the document counts as separated."""
+    lines = text.rstrip("\n").split("\n")
+    out = []
+    in_code = False
+    for i, ln in enumerate(lines):
+        body = ln.lstrip(" >")
+        if body.startswith("```") or body.startswith("~~~"):
+            in_code = not in_code
+            continue
+        if in_code or not _ITEM.match(ln) or __import__("re").match(r"^[ >]*(?:[-*_] *){3,}$", ln):
+            continue
+        out.append(i == 0 or lines[i - 1].strip(" >") == "" or lines[i - 1].strip().startswith("> [!"))
+    return out
+
+
 def _lists(shape: Any, acc: list[Any]) -> list[Any]:
     if isinstance(shape, tuple):
         if shape and shape[0] == "list":
@@ -90,8 +110,9 @@ def run(env: Any, case: dict[str, Any]) -> Any:
         # preserve keeps every list as authored
         env.prove([l[-1] for l in _lists(sh["preserve"], [])] == [l[-1] for l in _lists(s_in, [])], "list-spacing:preserve-as-authored",
                   {"in": [l[-1] for l in _lists(s_in, [])], "out": [l[-1] for l in _lists(sh["preserve"], [])], "output": outs["preserve"]})
-        # loose: every list loose
+        # loose: every list loose, and literally a blank line before every item
         env.prove(all(l[-1] == "loose" for l in _lists(sh["loose"], [])), "list-spacing:loose-all", {"out": outs["loose"]})
+        env.prove(all(item_separation(outs["loose"])), "list-spacing:loose-blank-line-before-every-item", {"out": outs["loose"], "separated": item_separation(outs["loose"])})
         # tight: every list whose items each hold a single block is tight
         for l in _lists(sh["tight"], []):
             single = all(len(item[1]) == 1 for item in l[3])
